@@ -11,6 +11,10 @@
               the same block size (engine/units.py: units by divisor provenance, flow-sensitive through locals, by agreement
               of stores through members).  Linearisations y*W+x, de-linearisations i%W / i/W and pixel scalings x<<log2(D)
               are the obligations, in every live encoder function
+  C24.REARM   every pass over a picture re-arms the dependency counters: the run-time decrements consume the init-time counts, so
+              each store of ENCDEC_TASKS_MDC_INPUT (the start of an EncDec pass) is dominated, in the same function, by a call that
+              reaches enc_dec_segments_init - or, for the first pass, the picture arrives from the picture manager, which re-arms
+              when it binds the child picture control set
   C24.FEED    the feedback task taken from the pool is always posted (no lost token), the function leaks no mutex
 """
 from engine.facts import pstr, strip, callee_name, subexprs, fields_in, last_field, root_of, AnalysisBroken
@@ -249,6 +253,36 @@ def run(P, rep, tier):
     ok = any(pstr(strip(ev['e'][3])) == 'feedback_row_index' for ev in fb)
     rep.ob('C24.FEED', 'feedback-row', ok, asg.loc(fb[0]) if fb else asg.loc(), 'feedback task carries the row whose first segment became ready')
     rep.floor('C24.FEED', 3)
+
+    # ---------------- REARM
+    FIRST_PASS = {'mode_decision_configuration_kernel': ('picture_manager_kernel', 'first pass: the picture manager re-arms the segments when it binds the child picture control set, before the picture reaches rate control and mode-decision configuration')}
+    cg = P.callgraph()
+    reinit = {g for g in P.fns if not g.nocfg and any(t.name == 'enc_dec_segments_init' for t in P.reachable_from([g]))}
+    nre = 0
+    for g in P.fns:
+        if g.lib != 'Encoder' or g.nocfg:
+            continue
+        for ev in g.events(('st',)):
+            e = ev['e']
+            if e[0] != 'a' or e[1] != '=' or last_field(strip(e[2])) != 'EncDecTasks.input_type':
+                continue
+            r = strip(e[3])
+            if not (r[0] == 'l' and len(r) > 2 and 'ENCDEC_TASKS_MDC_INPUT' in str(r[2])):
+                continue
+            nre += 1
+            calls = [c for c, nm in g.calls() if nm and any(t in reinit for t in P.resolve(nm, g))]
+            dom = [c for c in calls if g.ev_dominates(c, ev)]
+            if dom:
+                rep.ob('C24.REARM', 'start@%s' % g.name, True, g.loc(ev), 'pass started after %s re-armed the dependency counters in the same function' % callee_name(dom[0]['e']))
+            elif g.name in FIRST_PASS:
+                prod = P.fn(FIRST_PASS[g.name][0])
+                okp = any(nm and any(t in reinit for t in P.resolve(nm, prod)) for c, nm in prod.calls())
+                rep.exempt('C24.REARM', g.name, FIRST_PASS[g.name][1])
+                rep.ob('C24.REARM', 'start@%s' % g.name, okp, g.loc(ev), ('first pass: %s re-arms the counters' % prod.name) if okp else '%s no longer re-arms the counters for the first pass' % prod.name)
+            else:
+                rep.ob('C24.REARM', 'start@%s' % g.name, False, g.loc(ev),
+                       'a new pass over the picture is started without re-arming the dependency counters: the previous pass decremented them to 0, the next decrement wraps to 255 and no successor segment is ever released (hang)')
+    rep.floor('C24.REARM', 2)
 
     # ---------------- GRID: the segment grid never has more columns / rows than the superblock grid it partitions.
     # enc_dec_segments_init(seg, cols, rows, w_sb, h_sb): every use of `cols` (`rows`) sees only definitions that were
